@@ -103,7 +103,7 @@ def check(ctx):
     cov.update({
         "trusted_base": TRUSTED,
         "evaluations": n, "distinct_nontrivial": sum(v for k, v in kinds.items() if k != "fixture") + kinds.get("fixture", 0),
-        "rule": "specs = map-fat specs (>=4 entries in paths, schemas, properties, responses, headers, parameters, security schemes, scheme sets of one requirement, discriminator mapping, server variables, media types, scopes), the 42 fixture specs, random routing/parameter/security specs; a spec with custom Go types named without an import path; each generated 6 (quick) / 24 (thorough) times in one process - every other run into a directory that already holds a hand-written file importing a same-named package, with a failing run and a run under other options in between - plus 2 / 4 fresh processes; sha256 per file; every spec is non-trivial (a generator run reaches every map-range site)",
+        "rule": "specs = map-fat specs (>=4 entries in paths, schemas, properties, responses, headers, parameters, security schemes, scheme sets of one requirement, discriminator mapping, server variables, media types, scopes), the 42 fixture specs, random routing/parameter/security specs; a spec with custom Go types named without an import path; each generated 6 (quick) / 24 (thorough) times in one process - every other run into a directory that already holds a hand-written file importing a same-named package, with a failing run and a run under other options in between, every third run over the output of a run with another package name / base path / header option on the same, older spec file - plus 2 / 4 fresh processes, the last of them with another HOME (holding a .goag.yaml), locale, time zone and working directory (specs with custom Go types excepted); a shard whose generator dies leaves a marker naming the spec; sha256 per file; every spec is non-trivial (a generator run reaches every map-range site)",
         "samples": samples, "verdicts": verdicts, "spec_kinds": kinds, "harness_stats": meta.get("stats", {}),
         "regenerated_sites": sites, "regenerated_obligation_ok": ob_ok,
         "explanation": "the quantifier over iteration orders is discharged by the regenerated obligation (every map-range / environment-read site of the current source has a shape with a permutation-invariance lemma); the repeated-run comparison is the failing-input search",
